@@ -4,7 +4,10 @@
 package array
 
 import (
+	"encoding/binary"
+
 	proto "github.com/golang/protobuf/proto"
+	"github.com/openacid/slim/encode"
 )
 
 // C16 — compacted arrays behave as a sparse map and survive serialization.
@@ -53,6 +56,13 @@ func H_arr_map() {
 	has := false
 	for i := 0; i < n; i++ {
 		has = vOr(has, idx[i] == probe)
+	}
+	if vParamDef("bepre", 0) == 1 {
+		// some other code in the process built big-endian encoders for the element types first
+		encode.NewTypeEncoderEndian(uint16(0), binary.BigEndian)
+		encode.NewTypeEncoderEndian(uint32(0), binary.BigEndian)
+		encode.NewTypeEncoderEndian(vLevel(0), binary.BigEndian)
+		encode.NewTypeEncoderEndian(vPadElt{}, binary.BigEndian)
 	}
 	switch typ {
 	case 0:
@@ -110,6 +120,24 @@ func H_arr_map() {
 					good = vAnd(good, vImplies(idx[i] == probe, gv == elts[i]))
 				}
 				vAssert(good, "C16.generic.raw.value")
+			}
+			// ... and into a generic array made by NewEmpty for the element type: decoded elements
+			g2, e4 := NewEmpty(uint32(0))
+			vAssert(e4 == nil && g2 != nil, "C16.newempty-ok")
+			if e4 == nil {
+				e5 := proto.Unmarshal(bs, g2)
+				vAssert(e5 == nil, "C16.roundtrip-ok")
+				x, xok := g2.Get(probe)
+				vAssert(xok == has, "C16.generic.found")
+				if xok {
+					xv, isU32 := x.(uint32)
+					vAssert(isU32, "C16.generic.type")
+					good := true
+					for i := 0; i < n; i++ {
+						good = vAnd(good, vImplies(idx[i] == probe, xv == elts[i]))
+					}
+					vAssert(good, "C16.generic.value")
+				}
 			}
 			a2 := &U32{}
 			e3 := proto.Unmarshal(bs, a2)
